@@ -4,6 +4,8 @@ import json
 import common
 import codec_common as CC
 import codec_uper as U
+import boundary
+import xcodec as X
 import gen_asn1 as G
 import lib
 
@@ -51,7 +53,13 @@ def run(ctx):
     if not ctx.quick:
         big = G.Opts(big=True, max_depth=1, n_types=2, **U.OPTS)
         CC.corr_encode_decode(ctx, U, CC.gen_cases(ctx, big, 40, 2), tag='corr-big', shard=20)
+    mods = X.models()
+    for codec in ('uper', 'per'):
+        if codec in mods and codec != 'uper':
+            CC.corr_encode_decode(ctx, mods[codec], CC.gen_cases(ctx, G.Opts(**mods[codec].OPTS), n, 3))
+    boundary.run(ctx, ['uper', 'per'], mods, roundtrip=False,
+                 lengths=None if not ctx.quick else 'quick')
     rerun_findings(ctx)
-    ctx.extra['open_theorems'] = ['uper_refines_x691 (whole types): OPEN', 'aligned PER model: OPEN (property test only)']
+    ctx.extra['open_theorems'] = ['uper_refines_x691 (whole types): OPEN', 'aligned PER: modelled (Per/PerImpl.v) and compared bit for bit; its round-trip/prefix theorems are OPEN']
     if not ok:
         common.proof_broken(ctx)
